@@ -1,6 +1,147 @@
 import NpsVerif.Model.DataClass
+import NpsVerif.Proofs.DataClass
+import NpsVerif.Proofs.DataClassOps
+import NpsVerif.Proofs.DataClassConcat
+/-!
+# C18 (npdataclass): the column-wise operations act on the entries
+
+`entries t` is the list of records of a table (entry i = the i-th cell of every column).
+Helper lemmas: `NpsVerif/Proofs/DataClass.lean` (entries ↔ columns bridge, selectors),
+`NpsVerif/Proofs/DataClassOps.lean` (getitem, integer index, iteration),
+`NpsVerif/Proofs/DataClassConcat.lean` (concat, astype).
+-/
 namespace Props.C18
 open Model Model.DC
-/-- sanity instance; the universally quantified theorems are added as they are proved -/
+open Proofs.DataClass
+variable {α : Type}
+
+/-- sanity instance -/
 theorem entries_example : (mk? [("a", [1, 2, 3]), ("b", [4, 5, 6])]).map entries = some [[1, 4], [2, 5], [3, 6]] := by decide
+
+/-- construction is accepted iff there is at least one field and every field is as long as the first;
+the length is then that common length -/
+theorem C18_ctor (cols : List (String × List α)) :
+    (∃ t, mk? cols = some t ∧ t.cols = cols ∧ ∀ c ∈ cols, c.2.length = len t) ↔
+    (cols ≠ [] ∧ ∀ c ∈ cols, ∀ d ∈ cols, c.2.length = d.2.length) := by
+  constructor
+  · rintro ⟨t, hmk, _, hlen⟩
+    refine ⟨((mk?_eq_some_iff cols t).mp hmk).2.1, ?_⟩
+    intro c hc d hd
+    rw [hlen c hc, hlen d hd]
+  · rintro ⟨hne, hall⟩
+    obtain ⟨c0, hc0⟩ := List.exists_mem_of_ne_nil _ hne
+    obtain ⟨hmk, hl⟩ := mk?_some_of_len cols c0.2.length hne (fun c hc => hall c hc c0 hc0)
+    exact ⟨⟨cols⟩, hmk, rfl, fun c hc => by rw [hl]; exact hall c hc c0 hc0⟩
+
+/-- indexing with a slice / integer list / boolean mask acts on every field with the same selector:
+the entries of the result are exactly the selected entries; it refuses exactly when the selection
+of entries does -/
+theorem C18_getitem_aligned (t : Table α) (ht : mk? t.cols = some t) (sel : RowSel)
+    (hs : match sel with | .int _ => False | _ => True) :
+    (getitem t sel).map entries = Py.selectRows (entries t) sel := by
+  rw [selectRows_eq_selCol _ sel hs]
+  exact getitem_entries t ht sel
+
+/-- the result of indexing keeps the field names -/
+theorem C18_getitem_names (t : Table α) (sel : RowSel) (u : Table α) (h : getitem t sel = some u) :
+    u.cols.map (·.1) = t.cols.map (·.1) :=
+  getitem_names t sel u h
+
+/-- an integer index returns that entry (negative from the end) or refuses -/
+theorem C18_getitem_int (t : Table α) (ht : mk? t.cols = some t) (i : Int) :
+    getitemInt t i = Py.index (entries t) i :=
+  getitemInt_eq t ht i
+
+/-- iteration yields the entries in order -/
+theorem C18_iter (t : Table α) (ht : mk? t.cols = some t) : iter t = some (entries t) :=
+  iter_eq t ht
+
+/-- concatenating objects of one class concatenates their entries -/
+theorem C18_concat (ts : List (Table α)) (hne : ts ≠ []) (hok : ∀ t ∈ ts, mk? t.cols = some t)
+    (hsame : ∀ t ∈ ts, ∀ u ∈ ts, t.cols.map (·.1) = u.cols.map (·.1)) :
+    (concat ts).map entries = some (ts.map entries).flatten :=
+  concat_entries ts hne hok hsame
+
+set_option linter.unusedVariables false in -- `hnd` is not needed: `find?` and `idxOf?` both take the first match
+/-- conversion to a narrower class projects every entry onto the target's fields, in the target's
+order; a missing field is refused -/
+theorem C18_astype (t : Table α) (ht : mk? t.cols = some t) (names : List String) (hn : names ≠ [])
+    (hnd : (t.cols.map (·.1)).Nodup) :
+    (astype t names).map entries =
+      if names.all (fun n => t.cols.any (fun c => c.1 == n)) then
+        some ((entries t).map (fun e => names.filterMap (fun n => ((t.cols.map (·.1)).idxOf? n).bind (e[·]?))))
+      else none :=
+  astype_entries t ht names hn
+
+set_option linter.unusedVariables false in -- `hw` is not needed
+/-- VarLenArray concatenation: every row is right-aligned in the maximal width, zeros on the left
+(blocks given as (rows, width) with every row of that width) -/
+theorem C18_varlen_concat (zero : α) (ms : List (List (List α) × Nat)) (hw : ∀ p ∈ ms, ∀ r ∈ p.1, r.length = p.2) :
+    varlenConcat zero ms =
+      (ms.map (fun p => p.1.map (fun r => List.replicate (ms.foldl (fun m q => max m q.2) 0 - p.2) zero ++ r))).flatten := by
+  unfold varlenConcat
+  simp only []
+  split
+  · rename_i hall
+    rw [List.all_eq_true] at hall
+    congr 1
+    apply List.map_congr_left
+    intro p hp
+    have h := hall p hp
+    simp only [beq_iff_eq] at h
+    rw [← h]
+    simp
+  · rfl
+
+/-! ### concrete instances -/
+
+/-- a 3-field table -/
+def t3 : Table Nat := ⟨[("a", [1, 2, 3, 4, 5]), ("b", [10, 20, 30, 40, 50]), ("c", [7, 8, 9, 10, 11])]⟩
+
+example : (mk? t3.cols).map (·.cols) = some t3.cols := by decide
+
+/-- `t3[::-2]` -/
+example : (getitem t3 (.slice none none (some (-2)))).map entries
+    = some [[5, 50, 11], [3, 30, 9], [1, 10, 7]] := by decide
+example : Py.selectRows (entries t3) (.slice none none (some (-2)))
+    = some [[5, 50, 11], [3, 30, 9], [1, 10, 7]] := by decide
+example : (getitem t3 (.slice none none (some (-2)))).map (·.cols)
+    = some [("a", [5, 3, 1]), ("b", [50, 30, 10]), ("c", [11, 9, 7])] := by decide
+
+/-- an out-of-range integer list is refused on both sides -/
+example : (getitem t3 (.list [0, 5])).map entries = none := by decide
+example : Py.selectRows (entries t3) (.list [0, 5]) = none := by decide
+example : (getitem t3 (.list [0, -5, 4])).map entries = some [[1, 10, 7], [1, 10, 7], [5, 50, 11]] := by decide
+example : (getitem t3 (.list [0, -6])).map entries = none ∧ Py.selectRows (entries t3) (.list [0, -6]) = none := by decide
+
+/-- a mask of the wrong length is refused on both sides -/
+example : (getitem t3 (.mask [true, false, true, true])).map entries = none := by decide
+example : Py.selectRows (entries t3) (.mask [true, false, true, true]) = none := by decide
+example : (getitem t3 (.mask [true, false, true, true, false])).map entries
+    = some [[1, 10, 7], [3, 30, 9], [4, 40, 10]] := by decide
+/-- an empty selection has no entries -/
+example : (getitem t3 (.mask [false, false, false, false, false])).map entries = some [] ∧
+    Py.selectRows (entries t3) (.mask [false, false, false, false, false]) = some [] := by decide
+
+/-- unequal field lengths are refused by the constructor -/
+example : (mk? [("a", [1, 2, 3]), ("b", [4, 5])]).map entries = none := by decide
+example : (mk? ([] : List (String × List Nat))).map entries = none := by decide
+
+/-- integer index and iteration -/
+example : getitemInt t3 (-1) = some [5, 50, 11] ∧ getitemInt t3 5 = none := by decide
+example : iter t3 = some (entries t3) := by decide
+
+/-- concatenation -/
+example : (concat [t3, ⟨[("a", [6]), ("b", [60]), ("c", [12])]⟩]).map entries
+    = some [[1, 10, 7], [2, 20, 8], [3, 30, 9], [4, 40, 10], [5, 50, 11], [6, 60, 12]] := by decide
+
+/-- projection onto a narrower class (new order), a missing field is refused -/
+example : (astype t3 ["c", "a"]).map entries = some [[7, 1], [8, 2], [9, 3], [10, 4], [11, 5]] := by decide
+example : (astype t3 ["c", "z"]).map entries = none := by decide
+
+/-- `varlenConcat` of widths 3, 2, 1 -/
+example : varlenConcat 0 [([[1, 2, 3]], 3), ([[4, 5], [6, 7]], 2), ([[8]], 1)]
+    = [[1, 2, 3], [0, 4, 5], [0, 6, 7], [0, 0, 8]] := by decide
+example : varlenConcat 0 [([[1, 2]], 2), ([[4, 5], [6, 7]], 2)] = [[1, 2], [4, 5], [6, 7]] := by decide
+
 end Props.C18
